@@ -20,20 +20,26 @@ theorem find?_congr' {α} {p q : α → Bool} : ∀ {l : List α}, (∀ x ∈ l,
     rw [List.find?_cons, List.find?_cons, h x (by simp),
       find?_congr' (fun y hy => h y (by simp [hy]))]
 
-/-- the clauses of `validGraph` used for C12 -/
-structure ValidFacts (g : Graph) : Prop where
+/-- what C12 needs of the clauses V1, V6, V8, V9 -/
+structure MigFacts (g : Graph) : Prop where
   nodup : (g.demes.map (·.name)).Nodup
   mig : ∀ m ∈ g.migrations, ∃ s d, findDeme g m.source = some s ∧ findDeme g m.dest = some d ∧
     ETime.fin m.endTime < m.startTime ∧ qmax s.endTime d.endTime ≤ m.endTime
   epochs : ∀ d ∈ g.demes, ∀ e ∈ d.epochs, 0 ≤ e.endTime
   disj : g.migrations.Pairwise (fun a b =>
     (!(a.source == b.source && a.dest == b.dest) || disjoint a b) = true)
+
+/-- the clauses of `validGraph` used for C12 (the above and V10) -/
+structure ValidFacts (g : Graph) : Prop extends MigFacts g where
   ingress : ∀ t ∈ boundaries g, ∀ d ∈ g.demes, ingressOk (ingressAt g d.name t) = true
 
-theorem validFacts {g : Graph} (hv : validGraph g = true) : ValidFacts g := by
-  simp only [validGraph, validData, Bool.and_eq_true] at hv
-  obtain ⟨_, ⟨⟨⟨⟨⟨⟨⟨⟨⟨⟨⟨h1, _⟩, _⟩, _⟩, _⟩, h6⟩, h8⟩, h9⟩, h10⟩, _⟩, _⟩, _⟩⟩ := hv
-  refine ⟨?_, ?_, ?_, ?_, ?_⟩
+theorem v10_iff (g : Graph) : v10 g = true ↔
+    ∀ t ∈ boundaries g, ∀ d ∈ g.demes, ingressOk (ingressAt g d.name t) = true := by
+  simp only [v10, List.all_eq_true]
+
+theorem migFacts_of {g : Graph} (h1 : v1 g = true) (h6 : v6 g = true) (h8 : v8 g = true)
+    (h9 : v9 g = true) : MigFacts g := by
+  refine ⟨?_, ?_, ?_, ?_⟩
   · simp only [v1, Bool.and_eq_true, decide_eq_true_eq] at h1
     exact h1.2
   · intro m hm
@@ -50,24 +56,27 @@ theorem validFacts {g : Graph} (hv : validGraph g = true) : ValidFacts g := by
     simp only [v6, List.all_eq_true, Bool.and_eq_true, decide_eq_true_eq] at h6
     exact (h6 d hd e he).2
   · exact (pairwiseB_iff _ _).mp h9
-  · simp only [v10, List.all_eq_true] at h10
-    exact h10
 
-theorem deme_end_nonneg {g : Graph} (hf : ValidFacts g) {d : Deme} (hd : d ∈ g.demes) :
+theorem validFacts {g : Graph} (hv : validGraph g = true) : ValidFacts g := by
+  simp only [validGraph, validData, Bool.and_eq_true] at hv
+  obtain ⟨_, ⟨⟨⟨⟨⟨⟨⟨⟨⟨⟨⟨h1, _⟩, _⟩, _⟩, _⟩, h6⟩, h8⟩, h9⟩, h10⟩, _⟩, _⟩, _⟩⟩ := hv
+  exact { toMigFacts := migFacts_of h1 h6 h8 h9, ingress := (v10_iff g).mp h10 }
+
+theorem deme_end_nonneg {g : Graph} (hf : MigFacts g) {d : Deme} (hd : d ∈ g.demes) :
     0 ≤ d.endTime := by
   simp only [Deme.endTime, Deme.endTime?]
   cases h : d.epochs.getLast? with
   | none => simp
   | some e => simpa using hf.epochs d hd e (List.mem_of_getLast? h)
 
-theorem mig_end_nonneg {g : Graph} (hf : ValidFacts g) {m : Migration} (hm : m ∈ g.migrations) :
+theorem mig_end_nonneg {g : Graph} (hf : MigFacts g) {m : Migration} (hm : m ∈ g.migrations) :
     0 ≤ m.endTime := by
   obtain ⟨s, d, hs, _, _, hlo⟩ := hf.mig m hm
   have := deme_end_nonneg hf (findDeme_some hs).1
   simp only [qmax] at hlo
   split at hlo <;> grind
 
-theorem times_nonneg {g : Graph} (hf : ValidFacts g) : ∀ x ∈ migrationTimes g.migrations, 0 ≤ x := by
+theorem times_nonneg {g : Graph} (hf : MigFacts g) : ∀ x ∈ migrationTimes g.migrations, 0 ≤ x := by
   intro x hx
   obtain ⟨m, hm, h | h⟩ := (mem_migrationTimes _ _).mp hx
   · obtain ⟨_, _, _, _, hlt, _⟩ := hf.mig m hm
@@ -84,7 +93,7 @@ theorem get_zeroMatrix (n i j : Nat) : (zeroMatrix n).get i j = 0 := by
     split <;> rfl
   · rfl
 
-theorem good_of_valid {g : Graph} (hf : ValidFacts g) {ends : List Q}
+theorem good_of_valid {g : Graph} (hf : MigFacts g) {ends : List Q}
     (hmem : ∀ x, x ∈ migrationTimes g.migrations → x ∈ ends) {m : Migration}
     (hm : m ∈ g.migrations) : Good g ends m := by
   obtain ⟨s, d, hs, hd, _, _⟩ := hf.mig m hm
@@ -95,7 +104,7 @@ theorem good_of_valid {g : Graph} (hf : ValidFacts g) {ends : List Q}
   · intro q hq
     exact hmem _ ((mem_migrationTimes _ _).mpr ⟨m, hm, Or.inl hq⟩)
 
-theorem samePair_of_valid {g : Graph} (hf : ValidFacts g) {ends : List Q}
+theorem samePair_of_valid {g : Graph} (hf : MigFacts g) {ends : List Q}
     (hg : ∀ m ∈ g.migrations, Good g ends m) : g.migrations.Pairwise (SamePair g) := by
   refine List.Pairwise.imp_of_mem ?_ hf.disj
   intro a b ha hb hab h1 h2
@@ -113,7 +122,7 @@ theorem samePair_of_valid {g : Graph} (hf : ValidFacts g) {ends : List Q}
 /-- On a valid graph `migrationMatrices` succeeds with the expected end times, every matrix is
 square of the size of the deme list, and every entry is the rate of the migration written
 into it (`hit`), 0 if there is none. -/
-theorem mm_main (g : Graph) (hf : ValidFacts g) :
+theorem mm_main (g : Graph) (hf : MigFacts g) :
     ∃ mms, migrationMatrices g = .ok (mms, mmEndTimes g.migrations)
       ∧ mms.length = (mmEndTimes g.migrations).length
       ∧ (∀ mm ∈ mms, Shape g.demes.length mm)
@@ -148,7 +157,7 @@ theorem mm_main (g : Graph) (hf : ValidFacts g) :
     rw [get_zeroMatrix] at this; exact this
 
 /-- the predicate of `rateAt` and the predicate "written into entry `(i, j)` of matrix `k`" agree -/
-theorem hit_eq_rate_pred {g : Graph} (hf : ValidFacts g) {ends : List Q} (hp : ends.Pairwise (· > ·))
+theorem hit_eq_rate_pred {g : Graph} (hf : MigFacts g) {ends : List Q} (hp : ends.Pairwise (· > ·))
     {t : Q} {k : Nat} (hk : intervalOf ends t = some k) {i j : Nat} {di dj : Deme}
     (hi : g.demes[i]? = some di) (hj : g.demes[j]? = some dj) {m : Migration}
     (hm : TimesIn ends m) :
@@ -159,7 +168,7 @@ theorem hit_eq_rate_pred {g : Graph} (hf : ValidFacts g) {ends : List Q} (hp : e
   grind
 
 /-- an entry of the matrix of the interval containing `t` is `rateAt … t` -/
-theorem entry_eq {g : Graph} (hf : ValidFacts g) {ends : List Q} (hp : ends.Pairwise (· > ·))
+theorem entry_eq {g : Graph} (hf : MigFacts g) {ends : List Q} (hp : ends.Pairwise (· > ·))
     (hmem : ∀ x, x ∈ ends ↔ (x ∈ migrationTimes g.migrations ∨ x = 0))
     {mms : List Matrix}
     (hget : ∀ k mm i j, mms[k]? = some mm →
